@@ -38,11 +38,12 @@ fn expect_tab(out: &str, want: &Tab, what: &str) -> Result<(), String> {
                 }
             }
         }
+        let cut = |s: String| if s.len() > 160 { format!("{}...", &s[..160]) } else { s };
         return Err(format!(
             "{}: expected {} got {} (first differing assignment: {:?})",
             what,
-            want.show(),
-            got.show(),
+            cut(want.show()),
+            cut(got.show()),
             m0
         ));
     }
@@ -812,6 +813,27 @@ fn c10(t: &[&str], out: &str) -> R {
 // ------------------------------------------------------------------ C02
 
 fn c02(t: &[&str], out: &str) -> R {
+    if t[0] == "cmp" || t[0] == "eq" {
+        // ==, cmp = Equal  <=>  same number of variables and same value everywhere
+        let a = parse_tab(t[2]).unwrap();
+        let b = parse_tab(t[3]).unwrap();
+        if !a.wf() || !b.wf() {
+            return Ok(false);
+        }
+        let same = a.n == b.n && (0..(1usize << a.n)).all(|m| a.bit(m) == b.bit(m));
+        let says = if t[0] == "eq" { out == "ok 1" } else { out == "ok eq" };
+        if says != same {
+            return Err(format!(
+                "{} and {} are {} but {} says `{}`",
+                a.show(),
+                b.show(),
+                if same { "the same function" } else { "different (size or value)" },
+                t[0],
+                out
+            ));
+        }
+        return Ok(true);
+    }
     if t[0] != "hist" {
         return Ok(false);
     }
